@@ -1919,7 +1919,9 @@ impl<'a, C: Crypto> TransportRunner<'a, C> {
                     exchange_id.display(unwrap!(state.sessions.get(session_id))) // Session exists or else we wouldn't be here
                 );
 
-                self.write_evict_session_packet(packet, &mut state.sessions, session_id, false)?;
+                // Encode right away: the session is removed here, so `process_tx`
+                // would find no session to encode with and drop the packet
+                self.write_evict_session_packet(packet, &mut state.sessions, session_id, true)?;
             } else {
                 // Found a dropped exchange which has no outstanding (re)transmission
                 // Send a standalone ACK if necessary and then close it
